@@ -73,7 +73,7 @@ var c09Positions = []string{
 	"type R int\nfunc (r R) m(x util.T) {}",
 	"type R int\nfunc (r *R) m(xs ...util.T) {}",
 	"func g[P util.I](x P) {}",
-	"func g[P interface{ ~int | util.N }](x P) {}",
+	"func g[P interface{ ~string | util.N }](x P) {}",
 	"func g[P any](x P, y util.T) {}",
 	"var v util.G[int]",
 	"var v util.P[string, int]",
